@@ -227,12 +227,13 @@ class SimSocket:
             raise ValueError("buffer too small for requested bytes")
         if nbytes == 0:
             nbytes = len(mv)
-        if not (flags & _real_socket.MSG_WAITALL):
-            raise SimInternalError("recv_into without MSG_WAITALL is not modelled")
         if nbytes == 0:
             return 0
         try:
-            data = self._recv_core(nbytes)
+            if flags & _real_socket.MSG_WAITALL:
+                data = self._recv_core(nbytes)
+            else:
+                data = self._recv_some(nbytes)
         except ConnectionResetError:
             if self.side == "mgr":
                 self.net.on_mgr_read_end(self, "rst")
@@ -249,19 +250,48 @@ class SimSocket:
             raise ValueError("negative buffersize in recv")
         if nbytes == 0:
             return b""
-        if not (flags & _real_socket.MSG_WAITALL):
-            raise SimInternalError("recv without MSG_WAITALL is not modelled")
-        data = self._recv_core(nbytes)
+        if flags & _real_socket.MSG_WAITALL:
+            data = self._recv_core(nbytes)
+        else:
+            data = self._recv_some(nbytes)
         if self.side == "mgr":
             self.net.on_mgr_read(self, data, nbytes)
         else:
             self.net.on_peer_read(self, data, nbytes)
         return data
 
+    def _recv_some(self, n: int) -> bytes:
+        """plain recv(): whatever has arrived, at most n bytes; blocks only while nothing is there"""
+        while True:
+            if self.closed:
+                raise self._ebadf()
+            if self.rx_arrived:
+                return self._take(min(n, len(self.rx_arrived)))
+            if self.rx_rst == 2:
+                if not self.rst_reported:
+                    self.rst_reported = True
+                    raise ConnectionResetError(errno.ECONNRESET, "Connection reset by peer")
+                return b""
+            if self.rx_fin == 2:
+                return b""
+            self.net.block_in_recv(self, 1)
+
     # writing ------------------------------------------------------------------
-    def sendall(self, data, _retry=False):
+    def sendall(self, data, flags=0, _retry=False):
         if self.closed:
             raise self._ebadf()
+        if flags and (flags & _real_socket.MSG_DONTWAIT) and self.kind == "conn" and not self.peer.closed \
+                and self.rx_rst != 2 and not _retry:
+            # a non-blocking send may take only part of the data (buggify: a usually-successful
+            # call returns a retryable error after k bytes)
+            data = bytes(data)
+            if len(data) > 1 and self.net.choices.flag("net.dontwait_partial", 1, 4):
+                k = self.net.choices.pick("net.dontwait_k", len(data))
+                if k:
+                    self.sendall(data[:k])
+                self.net.log("WOULD_BLOCK", self.idx, k, len(data))
+                self.net.stats["would_block"] = self.net.stats.get("would_block", 0) + 1
+                raise BlockingIOError(errno.EAGAIN, "Resource temporarily unavailable")
         if self.kind != "conn":
             raise OSError(errno.ENOTCONN, "Transport endpoint is not connected")
         data = bytes(data)
@@ -289,7 +319,7 @@ class SimSocket:
                 # RST in flight: scheduler decides whether it has arrived by now
                 if net.choices.flag("net.rst_arrived", 1, 2):
                     self.arrive_rst_now()
-                    return self.sendall(data, _retry=True)
+                    return self.sendall(data, 0, True)
                 net.on_write_void(self, len(data))
                 return None
             # orderly FIN from the peer: the first write goes into the void and provokes an RST
@@ -560,7 +590,8 @@ class FakeSocketModule:
         self._side = side
         for name in ("AF_INET", "SOCK_STREAM", "IPPROTO_TCP", "INADDR_ANY", "SOMAXCONN",
                      "TCP_NODELAY", "SOL_SOCKET", "SO_REUSEADDR", "MSG_WAITALL", "error",
-                     "timeout", "SHUT_RDWR"):
+                     "timeout", "SHUT_RDWR", "MSG_DONTWAIT", "MSG_PEEK", "SO_SNDBUF", "SO_RCVBUF",
+                     "SO_KEEPALIVE", "SO_LINGER", "SHUT_RD", "SHUT_WR", "MSG_NOSIGNAL"):
             setattr(self, name, getattr(_real_socket, name))
 
     def socket(self, family=-1, type=-1, proto=-1, fileno=None):
